@@ -1,19 +1,31 @@
 (* PROOFS: the handle life-cycle in the multi-file refinement (C01).
    PrMulti.v shows that a SET of simultaneously open files behaves like independent byte arrays
    under read / write / seek / length / offset / eof.  Here the set itself changes:
-     1 flush of a member        - C01_flush_keeps: Ok, every member keeps its abstract state;
-     2 close of a member        - C01_close_removes: Ok, the member leaves the set, the others keep
-                                  their abstract states although swap_remove re-indexes the table;
-     3 open of an existing file - C01_open_adds (ReadOnly / ReadWriteAppend / ReadWriteCreateOrAppend),
-                                  C01_open_truncates (ReadWriteTruncate / ReadWriteCreateOrTruncate):
-                                  the new member holds the bytes of the entry's chain (resp. nothing);
-     4 histories                - C01_lifecycle_history: interleavings of the operations of PrMulti
-                                  with Flush and CloseFile (and the covered OpenFile forms, see the
-                                  end of the file for what exactly is covered).
+     1 flush of a member        - C01_flush_keeps(_rep): Ok, every member keeps its abstract state;
+     2 close of a member        - C01_close_removes(_rep): Ok, the member leaves the set, the others
+                                  keep their abstract states although swap_remove re-indexes the table;
+     3 open                     - C01_open_adds (existing file, ReadOnly / ReadWriteAppend /
+                                  ReadWriteCreateOrAppend): the new member holds the bytes of the
+                                  entry's chain; C01_open_truncates (existing file, ReadWriteTruncate /
+                                  ReadWriteCreateOrTruncate) and C01_open_creates (no such name, a
+                                  creating mode, a free slot in the directory): the new member is empty;
+     4 histories                - C01_lifecycle_history: every interleaving of the operations of
+                                  PrMulti with Flush, CloseFile and the covered OpenFile forms returns
+                                  what the byte-array models return, and the invariant lc_inv is kept;
+                                  C01_lifecycle_history_closed: without opens the guard is a property
+                                  of the calls alone;
+     5 close, then open again   - C01_reopen_covered / C01_close_reopen: the open that follows the
+                                  close of a written file is covered and finds the bytes the model held
+                                  (by PrEntry.C02_flush_then_lookup and the frame of the flush).
    The device works (no faults).  Flush writes the directory slot of the file (and, FAT32, the
-   information sector): blocks that must not be data blocks of any member's chain - the
-   hypothesis slot_apart below, which follows from "directory chains and file chains are
-   disjoint" (slot_home_apart). *)
+   information sector): blocks that must not be data blocks of any member's chain - slot_apart -
+   which follows from "directory chains and file chains are disjoint" (blk_home, blk_home_apart);
+   the invariant lc_inv = PrMulti.files_rep + that + well-formed slots + the volume + no id
+   twice in the file table.
+   NOT covered (see the end of the file): the SPEC side of an OpenFile call takes the contents of
+   the file on the medium as a ghost component of the call, tied to the concrete state by the
+   guard (open_covered); a SPEC-side "medium" map that carries the contents of closed files
+   across arbitrary intervening calls is not provided. *)
 From Coq Require Import NArith ZArith List Bool Lia Arith ZifyClasses ZifyInst Zify FMapPositive.
 From SdFs Require Import FsTypes FsBase FsFat FsMgr FsLemmas PrBase PrFat PrAlloc PrDir PrSeek PrAllocEffect PrRw PrWrite PrFileSeq PrMulti PrEntry.
 From SdFs Require PrModes PrHandles PrChain.
@@ -197,6 +209,10 @@ Qed.
 (* the block is not a data block of the chain *)
 Definition blk_apart (v : vol) (blk : N) (ch : list N) : Prop := ~ In blk (data_blocks v ch).
 
+(* slot_apart: the block of the directory slot of e is not a data block of any chain of the set *)
+Definition slot_apart (v : vol) (e : dirent) (chains : list (list N)) : Prop :=
+  forall ch, In ch chains -> blk_apart v (e_block e) ch.
+
 (* the effect of flush_file through a record with entry e on the rest of the state (and of
    any other rewrite of the directory slot of e): the tables are untouched, the device still
    works, and only the block of the slot and - FAT32 - the information sector may differ *)
@@ -295,12 +311,13 @@ Section Flush.
      data block of any member's chain. *)
   Theorem C01_flush_keeps_rep s vi v m rs i0 h w af fi f ch :
     files_rep fsz s vi v m rs -> nth_error m i0 = Some (h, w, af) -> nth_error rs i0 = Some (fi, f, ch) ->
-    slot_ok v (f_entry f) -> info_ok v ->
-    (forall r, In r rs -> blk_apart v (e_block (f_entry f)) (r_chain r)) ->
+    slot_ok v (f_entry f) -> info_ok v -> slot_apart v (f_entry f) (map r_chain rs) ->
     exists s', run_op (Flush h) s = (Ok RUnit, s') /\ flush_eff v (f_entry f) s s' /\
                files_rep fsz s' vi v m rs.
   Proof.
-    intros (F & Hdisj & Hnd) Hi0 Hr0 Hslot Hinfo Hapart.
+    intros (F & Hdisj & Hnd) Hi0 Hr0 Hslot Hinfo Hapart0.
+    assert (Hapart : forall r, In r rs -> blk_apart v (e_block (f_entry f)) (r_chain r))
+      by (intros r Hr; apply Hapart0; apply in_map; exact Hr).
     destruct (Forall2_nth_l _ _ _ F i0 _ Hi0) as (r0 & Hr0' & R0). rewrite Hr0 in Hr0'. injection Hr0' as <-.
     unfold member_rep in R0. cbn [m_wr m_handle m_af r_chain fst snd] in R0.
     destruct (flush_run w h s af fi f vi v ch R0 Hslot) as (s' & Hrun & Heff).
@@ -410,8 +427,7 @@ Section Close.
      representation re-indexed as swap_remove dictates *)
   Theorem C01_close_removes_rep s vi v m rs i0 h w af fi f ch :
     files_rep fsz s vi v m rs -> nth_error m i0 = Some (h, w, af) -> nth_error rs i0 = Some (fi, f, ch) ->
-    slot_ok v (f_entry f) -> info_ok v ->
-    (forall r, In r rs -> blk_apart v (e_block (f_entry f)) (r_chain r)) ->
+    slot_ok v (f_entry f) -> info_ok v -> slot_apart v (f_entry f) (map r_chain rs) ->
     NoDup (map f_id (s_files s)) ->
     exists s1 s', run_op (CloseFile h) s = (Ok RUnit, s') /\ flush_file h s = (Ok tt, s1) /\
       flush_eff v (f_entry f) s s1 /\
@@ -531,6 +547,10 @@ Proof.
 Qed.
 
 (* the hypotheses of the flush / close theorems, from the invariant *)
+Lemma slot_apart_intro v e (rs : list frep) :
+  (forall r, In r rs -> blk_apart v (e_block e) (r_chain r)) -> slot_apart v e (map r_chain rs).
+Proof. intros H ch Hch. apply in_map_iff in Hch. destruct Hch as (r & <- & Hr). exact (H r Hr). Qed.
+
 Lemma lc_rep_slot fsz s vi v m rs : lc_rep fsz s vi v m rs ->
   forall r, In r rs -> slot_ok v (f_entry (snd (fst r))) /\
     forall r2, In r2 rs -> blk_apart v (e_block (f_entry (snd (fst r)))) (r_chain r2).
@@ -794,8 +814,8 @@ Section Life.
     destruct (lc_rep_slot fsz s vi v m rs LR _ (nth_error_In _ _ Hr0)) as [Hslot Hapart].
     cbn [fst snd] in Hslot, Hapart.
     destruct LR as (FR & Hok & Hvolctx & Hinfo & Hndf).
-    destruct (C01_flush_keeps_rep fsz s vi v m rs i0 h w af fi f ch FR Hi0 Hr0 Hslot Hinfo Hapart)
-      as (s' & Hrun & Heff & FR').
+    destruct (C01_flush_keeps_rep fsz s vi v m rs i0 h w af fi f ch FR Hi0 Hr0 Hslot Hinfo
+                (slot_apart_intro _ _ _ Hapart)) as (s' & Hrun & Heff & FR').
     exists s'. split; [exact Hrun|]. exists vi, v, rs. split; [|exact Evid].
     pose proof Heff as ((M1 & _ & M3 & _ & M6 & _) & Hnf' & Hc' & Hwf' & _).
     split; [exact FR'|]. split; [|split; [|split; [exact Hinfo|rewrite M3; exact Hndf]]].
@@ -818,7 +838,8 @@ Section Life.
     destruct (lc_rep_slot fsz s vi v m rs LR _ (nth_error_In _ _ Hr0)) as [Hslot Hapart].
     cbn [fst snd] in Hslot, Hapart.
     destruct LR as (FR & Hok & Hvolctx & Hinfo & Hndf).
-    destruct (C01_close_removes_rep fsz s vi v m rs i0 h w af fi f ch FR Hi0 Hr0 Hslot Hinfo Hapart Hndf)
+    destruct (C01_close_removes_rep fsz s vi v m rs i0 h w af fi f ch FR Hi0 Hr0 Hslot Hinfo
+                (slot_apart_intro _ _ _ Hapart) Hndf)
       as (s1 & s' & Hrun & _ & Heff & Es' & FR').
     exists s'. split; [exact Hrun|]. exists vi, v, (remove_rep h fi (length (s_files s) - 1) rs).
     split; [|exact Evid].
@@ -972,6 +993,14 @@ Proof.
   injection H3 as ->.
   destruct (nth_error (s_vols s) vi) as [y|]; [|discriminate H4]. injection H4 as ->.
   repeat split; reflexivity.
+Qed.
+
+(* the freshness hypothesis of the open theorems, from PrHandles' invariant *)
+Lemma handles_ok_no_file age_max s : age_max < U32 -> PrHandles.handles_ok age_max s ->
+  PrHandles.no_file (s_next_id s) s.
+Proof.
+  intros Ha (Hf & _) f Hin. apply (PrHandles.fresh_inv_distinct age_max s Ha Hf).
+  unfold PrHandles.all_ids, PrHandles.fids. rewrite !in_app_iff. right. right. apply in_map. exact Hin.
 Qed.
 
 (* ================================================================== 9. open of an existing file *)
@@ -1363,6 +1392,174 @@ Section Truncate.
   Qed.
 End Truncate.
 
+Section OpenTruncate.
+  Variable fsz : N.
+
+  (* the chains that hold the slots of the set, after a step that keeps every chain disjoint
+     from l: they are the chains they were, so they still avoid l *)
+  Lemma dirs_after s s' v rs l :
+    Forall (rec_ok s v rs) rs ->
+    (forall r, In r rs -> forall c0 fu dch, In (e_block (f_entry (snd (fst r)))) (cluster_blocks v c0) ->
+       chain_of (s_disk s) v c0 fu = Some dch -> disjoint dch l) ->
+    (forall x fu dch, chain_of (s_disk s) v x fu = Some dch -> disjoint dch l ->
+       chain_of (s_disk s') v x fu = Some dch) ->
+    forall r, In r rs -> forall c0 fu dch, In (e_block (f_entry (snd (fst r)))) (cluster_blocks v c0) ->
+       chain_of (s_disk s') v c0 fu = Some dch -> disjoint dch l.
+  Proof.
+    intros Hok Hd Htr r Hr c0 fu dch Hb Hch. rewrite Forall_forall in Hok.
+    destruct (Hok r Hr) as (_ & [H|(c1 & fu1 & dch1 & Hb1 & Hch1 & _)]).
+    - exfalso. destruct (chain_of_head _ _ _ _ _ Hch) as (A & _). exact (H c0 A Hb).
+    - pose proof (Hd r Hr c1 fu1 dch1 Hb1 Hch1) as D1.
+      pose proof (Htr c1 fu1 dch1 Hch1 D1) as Hch1'.
+      destruct (blk_cluster_unique _ _ _ _ _ _ _ _ _ Hb Hb1 Hch Hch1') as [_ ->]. exact D1.
+  Qed.
+
+  (* 3'. C01, open of an existing file that is not open, mode ReadWriteTruncate /
+     ReadWriteCreateOrTruncate: the call returns the next handle; the clusters after the first
+     are freed, the entry is rewritten with size 0; the invariant holds for the set plus a new
+     member with no bytes at offset 0 (its chain: the first cluster alone, or none).
+     Hypotheses about the medium as for C01_open_adds, without any on the size. *)
+  Theorem C01_open_truncates vid s m d di dd vi v name sfn md bl t ch :
+    lc_inv fsz vid s m ->
+    PrModes.resolves s d di dd vi v -> d_vol dd = vid ->
+    is_full (s_files s) (s_maxf s) = false ->
+    sfn_of_str name = Some sfn -> PrModes.dot_name sfn = false ->
+    dir_blocks (s_disk s) v (d_cluster dd) = Some bl ->
+    find (t_matches sfn) (live_in_blocks (s_disk s) bl) = Some t ->
+    let e := t_entry (v_fat32 v) t in
+    PrModes.open_refusal md (Ok e) (PrModes.is_open s (d_vol dd) e) = None ->
+    md = ReadWriteTruncate \/ md = ReadWriteCreateOrTruncate ->
+    entry_chain (s_disk s) v e ch ->
+    chain_free s v m ch -> dirs_free s v m ch -> dir_home s v m bl ch ->
+    PrHandles.no_file (s_next_id s) s ->
+    exists s', run_op (OpenFile d name md) s = (Ok (RHandle (s_next_id s)), s') /\
+      lc_inv fsz vid s' ((s_next_id s, true, ([], 0)) :: m).
+  Proof.
+    intros (vi0 & v0 & rs & LR & Evid) Hres Hdvol Hfull Hsfn Hdot Hbl Hfind e Href Hmd Hech Hcf Hdf Hdh Hfresh.
+    pose proof LR as (FR & Hok & Hvolctx & Hinfo & Hndf).
+    destruct (lc_vol_same fsz s vi v vi0 v0 d di dd Hvolctx Hres ltac:(congruence)) as [-> ->].
+    pose proof Hvolctx as (Hl & ((Hnf & Hc & Hvi & _) & L & _) & _ & _ & Hwf & _).
+    pose proof (PrModes.resolves_vol_id _ _ _ _ _ _ Hres) as Hvid.
+    (* the lookup *)
+    destruct (C06_find vi0 v0 (d_cluster dd) sfn s bl Hvi (fl_vol _ _ L) Hnf Hc Hbl) as (s1 & Hlook & Hro).
+    rewrite Hfind in Hlook. fold e in Hlook.
+    pose proof Hro as (Hd & Hc1 & Hnf1 & Hm). pose proof Hm as (M1 & M2 & M3 & M4 & _ & M6 & _).
+    pose proof (find_some _ _ Hfind) as [Hlive _].
+    destruct (live_entry_ok (s_disk s) bl (v_fat32 v0) t Hwf Hlive) as (Eb & Eo & En & Ec & Emt).
+    fold e in Eb, Eo, En, Ec, Emt.
+    (* the handle counter advances, the chain is cut *)
+    set (sg := set_s_next_id s1 ((s_next_id s1 + 1) mod U32)).
+    assert (LRg : lc_rep fsz sg vi0 v0 m rs) by (apply (lc_rep_same fsz s sg vi0 v0 m rs LR); assumption).
+    assert (Hechg : entry_chain (s_disk sg) v0 e ch) by (unfold sg; cbn [s_disk set_s_next_id]; rewrite Hd; exact Hech).
+    destruct (trunc_run fsz sg vi0 v0 e ch (proj1 (proj2 (proj2 LRg))) Hechg)
+      as (s2 & v2 & ch' & Htr & Heffv & Htabs & Hincl & Hch').
+    assert (Hdisg : s_disk sg = s_disk s) by exact Hd.
+    pose proof (chain_free_rep fsz s vi0 v0 m rs ch FR Hcf) as Hfree.
+    pose proof (dirs_free_rep fsz s vi0 v0 m rs ch FR Hdf) as Hdirs.
+    assert (LR2 : lc_rep fsz s2 vi0 v2 m rs).
+    { apply (lc_rep_vol_eff fsz sg s2 vi0 v0 v2 m rs ch LRg Heffv).
+      - intros r Hr. apply disjoint_sym. exact (Hfree r Hr).
+      - intros r Hr c0 fu dch Hb Hch. rewrite Hdisg in Hch. exact (Hdirs r Hr c0 fu dch Hb Hch). }
+    pose proof Heffv as [(nf2 & fc2 & Ev2) Hvols2 Hfiles2 Hlock2 Hpre2 Hwf2 Hoth2].
+    pose proof Htabs as (_ & T2 & T3 & _ & T5 & _).
+    pose proof Hpre2 as ((Hnf2 & Hc2 & Hvi2 & _) & _).
+    (* the clock is read, the entry is rewritten *)
+    set (now := clock_ts (s_clock s2)).
+    set (s3 := set_s_clock s2 (s_clock s2 + 1)).
+    assert (LR3 : lc_rep fsz s3 vi0 v2 m rs) by (apply (lc_rep_same fsz s2 s3 vi0 v2 m rs LR2); try reflexivity; assumption).
+    set (e' := set_e_mtime (set_e_size e 0) now).
+    destruct (write_entry_to_disk_spec v2 e' s3 Hnf2 Hc2 Ec ltac:(apply ts_cal_ok, clock_ts_cal) Eo)
+      as (s4 & Hwrite & Hd4 & _ & Hfr4 & _ & _ & Hc4 & Hnf4 & Hm4 & _).
+    cbn [e_block e' set_e_mtime set_e_size] in Hd4, Hfr4.
+    assert (Hnfat : ~ fat_area v0 (e_block e)) by exact (proj1 Hdh _ Eb).
+    assert (Heff4 : flush_eff v2 e' s3 s4).
+    { split; [exact (proj1 (same_mgr_tables _ _ Hm4))|]. split; [exact Hnf4|]. split; [exact Hc4|]. split.
+      - intros j. rewrite Hd4. destruct (N.eq_dec j (e_block e)) as [->|Hne].
+        + rewrite disk_get_set_same. unfold put_entry. rewrite set_bytes_length; [apply Hwf2|].
+          rewrite (ser_bytes_length (v_fat32 v2) e' En). cbn [e_offset e' set_e_mtime set_e_size].
+          change (s_disk s3) with (s_disk s2). rewrite (Hwf2 _). clear - Eo. lia.
+        + rewrite disk_get_set_other by congruence. apply Hwf2.
+      - intros j Hj _. apply Hfr4. exact Hj. }
+    set (nf := set_f_entry (mk_fileinfo (s_next_id s) (d_vol dd) 0 (e_cluster e) 0 ReadWriteTruncate e false) e').
+    pose proof (dir_home_blk fsz s vi0 v0 m rs bl ch (length (s_files s4)) nf _ FR Hdh Eb) as Hblk.
+    subst v2.
+    assert (Hinfo2 : info_ok (vol_rebook v0 nf2 fc2)) by exact Hinfo.
+    assert (LR4 : lc_rep fsz s4 vi0 (vol_rebook v0 nf2 fc2) m rs).
+    { apply (lc_rep_dir_write fsz s3 s4 vi0 _ m rs e' LR3 Heff4 Hnfat). intros r Hr.
+      exact (blk_home_apart s v0 _ _ Hblk r (or_intror Hr) (files_rep_ranges fsz s vi0 v0 m rs FR r Hr)). }
+    (* chains that avoid ch are the same at the end *)
+    assert (Htransport : forall x fu dch, chain_of (s_disk s) v0 x fu = Some dch -> disjoint dch ch ->
+              chain_of (s_disk s4) v0 x fu = Some dch).
+    { intros x fu dch Hch Hdis. rewrite <- Hdisg in Hch.
+      pose proof (proj1 (Hoth2 x fu dch Hch Hdis)) as H2.
+      rewrite <- (chain_of_rebook _ v0 nf2 fc2).
+      apply (flush_eff_chains _ e' s3 s4 Heff4 Hnfat Hinfo2). rewrite chain_of_rebook. exact H2. }
+    (* the run *)
+    assert (Hfiles4 : s_files s4 = s_files s).
+    { destruct Hm4 as (_ & _ & F4 & _). rewrite F4. change (s_files s3) with (s_files s2).
+      rewrite T2. exact M3. }
+    assert (Hopen : open_file_in_dir d name md s = (Ok (s_next_id s), set_s_files s4 (s_files s4 ++ [nf]))).
+    { assert (Href1 : PrModes.open_refusal md (Ok e) (PrModes.is_open s1 (d_vol dd) e) = None).
+      { unfold PrModes.is_open in *. rewrite M3. exact Href. }
+      assert (Htail : (truncate_cluster_chain vi0 (e_cluster e) ;;;
+                       now0 <- get_timestamp ;;
+                       v' <- get_vol vi0 ;;
+                       write_entry_to_disk v' (set_e_mtime (set_e_size e 0) now0) ;;;
+                       push_file (set_f_entry (mk_fileinfo (s_next_id s1) (d_vol dd) 0 (e_cluster e) 0
+                                                           ReadWriteTruncate e false)
+                                              (set_e_mtime (set_e_size e 0) now0)) ;;; ret (s_next_id s1)) sg
+                      = (Ok (s_next_id s), set_s_files s4 (s_files s4 ++ [nf]))).
+      { rewrite (bind_ok _ _ _ _ _ Htr), (bind_ok _ _ _ _ _ (get_timestamp_eq s2)).
+        rewrite (bind_ok _ _ _ _ _ (get_vol_some vi0 _ s3 Hvi2)), (bind_ok _ _ _ _ _ Hwrite).
+        unfold bind, push_file, modify, ret. rewrite M4. reflexivity. }
+      unfold open_file_in_dir. PrModes.open_prefix Hres Hfull Hsfn.
+      unfold PrModes.dot_name in Hdot. rewrite Hdot.
+      unfold bind at 1. unfold try. rewrite Hlook.
+      rewrite PrModes.bind_ret, (bind_ok _ _ _ _ _ (PrModes.file_is_open_eq _ _ _)), Hvid.
+      cbn [PrModes.open_refusal] in Href1.
+      destruct (PrModes.is_open s1 (d_vol dd) e) eqn:Hop; [discriminate|].
+      destruct (mode_eqb md ReadWriteCreate) eqn:Hcm; [discriminate|].
+      destruct (is_read_only (e_attr e) && negb (mode_eqb md ReadOnly)) eqn:Hr; [discriminate|].
+      destruct (is_directory (e_attr e)) eqn:Hdd; [discriminate|].
+      destruct Hmd as [-> | ->]; cbn [solve_mode_variant mode_eqb] in *;
+        rewrite Hr, (bind_ok _ _ _ _ _ (PrModes.file_is_open_eq _ _ _)), Hop,
+                (bind_ok _ _ _ _ _ (generate_spec s1)); exact Htail. }
+    eexists. split; [unfold run_op; cbn [step]; exact (lift_ok' RHandle _ _ _ _ Hopen)|].
+    exists vi0, (vol_rebook v0 nf2 fc2), ((length (s_files s4), nf, ch') :: rs). split; [|exact Evid].
+    change (set_s_files s4 (s_files s4 ++ [nf]))
+      with (set_s_files (set_s_next_id s4 (s_next_id s4)) (s_files s4 ++ [nf])).
+    pose proof (lc_rep_push fsz s4 vi0 (vol_rebook v0 nf2 fc2) m rs (s_next_id s4) nf true ch' LR4) as P.
+    cbn [f_id f_vol f_offset f_entry f_mode nf set_f_entry e_size e' set_e_mtime set_e_size] in P.
+    apply P; clear P.
+    - intros g Hg. rewrite Hfiles4 in Hg. exact (Hfresh g Hg).
+    - symmetry. exact Hvid.
+    - unfold chain_ok. cbn [f_entry f_cur_off f_cur_cluster nf set_f_entry e_cluster e' set_e_mtime set_e_size].
+      destruct Hch' as [(A1 & -> & fu & A2)|(A1 & ->)]; [left|right; split; [exact A1|split; [reflexivity|exact A1]]].
+      split; [exact A1|]. split; [|exists 0%nat; split; reflexivity].
+      exists fu. apply (flush_eff_chains _ e' s3 s4 Heff4 Hnfat Hinfo2). rewrite chain_of_rebook. exact A2.
+    - reflexivity.
+    - cbn. lia.
+    - reflexivity.
+    - reflexivity.
+    - intros r Hr y Hy. exact (Hfree r Hr y (Hincl y Hy)).
+    - intros r Hr c0 fu dch Hb Hch y Hy Hy'. rewrite chain_of_rebook in Hch.
+      exact (dirs_after s s4 v0 rs ch Hok Hdirs Htransport r Hr c0 fu dch Hb Hch y Hy (Hincl y Hy')).
+    - constructor; cbn [e_ctime e_mtime e_name e_offset e_block e' set_e_mtime set_e_size].
+      + exact Ec.
+      + apply ts_cal_ok, clock_ts_cal.
+      + exact En.
+      + exact Eo.
+      + exact Hnfat.
+    - cbn [e_block e' set_e_mtime set_e_size].
+      destruct Hblk as [H|(c0 & fu & dch & Hb & Hch & Hdis0)]; [left; exact H|right].
+      exists c0, fu, dch. split; [exact Hb|].
+      split; [rewrite chain_of_rebook; exact (Htransport c0 fu dch Hch (Hdis0 _ (or_introl eq_refl)))|].
+      intros r [<-|Hr]; [|exact (Hdis0 r (or_intror Hr))].
+      intros y Hy Hy'. exact (Hdis0 _ (or_introl eq_refl) y Hy (Hincl y Hy')).
+  Qed.
+End OpenTruncate.
+
+
 (* ================================================================== 10. life-cycle histories *)
 (* the calls of a history.  LOpen carries two ghost components that the SPEC side needs and the
    guard ties to the concrete state: the handle the call will return, and the contents of the
@@ -1417,11 +1614,12 @@ Fixpoint alrun (ops : list lop) (m : list member) : list (outcome res) * list me
               end
   end.
 
-(* what an OpenFile call must find on the medium to be covered: an existing file that is not
-   open, mode ReadOnly / ReadWriteAppend / ReadWriteCreateOrAppend, with the hypotheses of
-   C01_open_adds; `bytes` are the first e_size bytes of its chain *)
-Definition open_covered (fsz vid : N) (s : st) (m : list member) (d : N) (name : list N) (md : mode)
-                        (ob : option (list N)) : Prop :=
+(* what an OpenFile call must find on the medium to be covered.
+   open_keep: an existing file that is not open, mode ReadOnly / ReadWriteAppend /
+   ReadWriteCreateOrAppend, with the hypotheses of C01_open_adds; the ghost contents are the
+   first e_size bytes of its chain *)
+Definition open_keep (fsz vid : N) (s : st) (m : list member) (d : N) (name : list N) (md : mode)
+                     (ob : option (list N)) : Prop :=
   exists di dd vi v sfn bl t ch,
     PrModes.resolves s d di dd vi v /\ d_vol dd = vid /\
     is_full (s_files s) (s_maxf s) = false /\
@@ -1436,6 +1634,45 @@ Definition open_covered (fsz vid : N) (s : st) (m : list member) (d : N) (name :
     chain_free s v m ch /\ dirs_free s v m ch /\ dir_home s v m bl ch /\
     PrHandles.no_file (s_next_id s) s /\
     ob = Some (firstn (N.to_nat (e_size e)) (file_bytes (s_disk s) v ch)).
+
+(* open_trunc: an existing file that is not open, mode ReadWriteTruncate /
+   ReadWriteCreateOrTruncate, with the hypotheses of C01_open_truncates (whatever it holds) *)
+Definition open_trunc (fsz vid : N) (s : st) (m : list member) (d : N) (name : list N) (md : mode)
+                      (ob : option (list N)) : Prop :=
+  exists di dd vi v sfn bl t ch,
+    PrModes.resolves s d di dd vi v /\ d_vol dd = vid /\
+    is_full (s_files s) (s_maxf s) = false /\
+    sfn_of_str name = Some sfn /\ PrModes.dot_name sfn = false /\
+    dir_blocks (s_disk s) v (d_cluster dd) = Some bl /\
+    find (t_matches sfn) (live_in_blocks (s_disk s) bl) = Some t /\
+    let e := t_entry (v_fat32 v) t in
+    PrModes.open_refusal md (Ok e) (PrModes.is_open s (d_vol dd) e) = None /\
+    (md = ReadWriteTruncate \/ md = ReadWriteCreateOrTruncate) /\
+    entry_chain (s_disk s) v e ch /\
+    chain_free s v m ch /\ dirs_free s v m ch /\ dir_home s v m bl ch /\
+    PrHandles.no_file (s_next_id s) s /\
+    exists b, ob = Some b.
+
+(* open_create: no such name in the directory, a creating mode, a free slot in the directory,
+   with the hypotheses of C01_open_creates *)
+Definition open_create (fsz vid : N) (s : st) (m : list member) (d : N) (name : list N) (md : mode)
+                       (ob : option (list N)) : Prop :=
+  exists di dd vi v sfn bl blk off sl0,
+    PrModes.resolves s d di dd vi v /\ d_vol dd = vid /\
+    is_full (s_files s) (s_maxf s) = false /\
+    sfn_of_str name = Some sfn /\ length sfn = 11%nat /\ PrModes.dot_name sfn = false /\
+    dir_blocks (s_disk s) v (d_cluster dd) = Some bl /\
+    find (t_matches sfn) (live_in_blocks (s_disk s) bl) = None /\
+    creating md = true /\
+    find nv (slots_of (s_disk s) bl) = Some (blk, off, sl0) /\
+    dir_home s v m bl [] /\
+    PrHandles.no_file (s_next_id s) s /\
+    ob = None.
+
+Definition open_covered (fsz vid : N) (s : st) (m : list member) (d : N) (name : list N) (md : mode)
+                        (ob : option (list N)) : Prop :=
+  open_keep fsz vid s m d name md ob \/ open_trunc fsz vid s m d name md ob \/
+  open_create fsz vid s m d name md ob.
 
 (* the guard of a call: its handle is open at that moment; an open is covered *)
 Definition lguard (fsz vid : N) (o : lop) (s : st) (m : list member) : Prop :=
@@ -1485,26 +1722,45 @@ Section LHistory.
       exists (Ok RUnit), s'. split; [exact Hrun|]. intros _.
       exists (remove_member h m). split; [reflexivity|exact Hinv'].
     - (* open *)
-      destruct Hg as (-> & di & dd & vi & v & sfn & bl & t & ch & G1 & G2 & G3 & G4 & G5 & G6 & G7 & G8 & G9 &
-                      G10 & G11 & G12 & G13 & G14 & G15 & G16 & ->).
-      destruct (C01_open_adds fsz vid s m d di dd vi v name sfn md bl t ch Hinv G1 G2 G3 G4 G5 G6 G7 G8 G9
-                  G10 G11 G12 G13 G14 G15 G16) as (s' & Hrun & Hinv').
-      exists (Ok (RHandle (s_next_id s))), s'. split; [exact Hrun|]. intros _.
-      eexists. split; [reflexivity|].
-      assert (Em : open_model md (Some (firstn (N.to_nat (e_size (t_entry (v_fat32 v) t)))
-                                               (file_bytes (s_disk s) v ch)))
-                   = (firstn (N.to_nat (e_size (t_entry (v_fat32 v) t))) (file_bytes (s_disk s) v ch),
-                      PrModes.start_offset md (t_entry (v_fat32 v) t))).
-      { unfold open_model.
-        assert (Hlen : N.of_nat (length (firstn (N.to_nat (e_size (t_entry (v_fat32 v) t)))
-                                               (file_bytes (s_disk s) v ch))) = e_size (t_entry (v_fat32 v) t)).
-        { destruct Hinv as (vi0 & v0 & rs & (_ & _ & Hvolctx & _) & Evid).
-          destruct (lc_vol_same fsz s vi v vi0 v0 d di dd Hvolctx G1 ltac:(congruence)) as [-> ->].
-          destruct Hvolctx as (_ & _ & _ & _ & Hwf & _).
-          rewrite firstn_length, (file_bytes_length _ _ _ Hwf).
-          unfold bytes_per_cluster in G11. clear - G11. lia. }
-        destruct G9 as [-> | [-> | ->]]; cbn [truncating appending PrModes.start_offset]; try rewrite Hlen; reflexivity. }
-      rewrite Em. exact Hinv'.
+      destruct Hg as (-> & [Hk|[Ht|Hc]]).
+      + destruct Hk as (di & dd & vi & v & sfn & bl & t & ch & G1 & G2 & G3 & G4 & G5 & G6 & G7 & G8 & G9 &
+                        G10 & G11 & G12 & G13 & G14 & G15 & G16 & ->).
+        destruct (C01_open_adds fsz vid s m d di dd vi v name sfn md bl t ch Hinv G1 G2 G3 G4 G5 G6 G7 G8 G9
+                    G10 G11 G12 G13 G14 G15 G16) as (s' & Hrun & Hinv').
+        exists (Ok (RHandle (s_next_id s))), s'. split; [exact Hrun|]. intros _.
+        eexists. split; [reflexivity|].
+        assert (Em : open_model md (Some (firstn (N.to_nat (e_size (t_entry (v_fat32 v) t)))
+                                                 (file_bytes (s_disk s) v ch)))
+                     = (firstn (N.to_nat (e_size (t_entry (v_fat32 v) t))) (file_bytes (s_disk s) v ch),
+                        PrModes.start_offset md (t_entry (v_fat32 v) t))).
+        { unfold open_model.
+          assert (Hlen : N.of_nat (length (firstn (N.to_nat (e_size (t_entry (v_fat32 v) t)))
+                                                 (file_bytes (s_disk s) v ch))) = e_size (t_entry (v_fat32 v) t)).
+          { destruct Hinv as (vi0 & v0 & rs & (_ & _ & Hvolctx & _) & Evid).
+            destruct (lc_vol_same fsz s vi v vi0 v0 d di dd Hvolctx G1 ltac:(congruence)) as [-> ->].
+            destruct Hvolctx as (_ & _ & _ & _ & Hwf & _).
+            rewrite firstn_length, (file_bytes_length _ _ _ Hwf).
+            unfold bytes_per_cluster in G11. clear - G11. lia. }
+          destruct G9 as [-> | [-> | ->]]; cbn [truncating appending PrModes.start_offset]; try rewrite Hlen; reflexivity. }
+        rewrite Em. exact Hinv'.
+      + destruct Ht as (di & dd & vi & v & sfn & bl & t & ch & G1 & G2 & G3 & G4 & G5 & G6 & G7 & G8 & G9 &
+                        G10 & G13 & G14 & G15 & G16 & b & ->).
+        destruct (C01_open_truncates fsz vid s m d di dd vi v name sfn md bl t ch Hinv G1 G2 G3 G4 G5 G6 G7 G8 G9
+                    G10 G13 G14 G15 G16) as (s' & Hrun & Hinv').
+        exists (Ok (RHandle (s_next_id s))), s'. split; [exact Hrun|]. intros _.
+        eexists. split; [reflexivity|].
+        replace (negb (mode_eqb md ReadOnly)) with true by (destruct G9 as [-> | ->]; reflexivity).
+        replace (open_model md (Some b)) with (@nil N, 0) by (destruct G9 as [-> | ->]; reflexivity).
+        exact Hinv'.
+      + destruct Hc as (di & dd & vi & v & sfn & bl & blk & off & sl0 & G1 & G2 & G3 & G4 & G5 & G6 & G7 & G8 &
+                        G9 & G10 & G11 & G12 & ->).
+        destruct (C01_open_creates fsz vid s m d di dd vi v name sfn md bl blk off sl0 Hinv G1 G2 G3 G4 G5 G6 G7
+                    G8 G9 G10 G11 G12) as (s' & Hrun & Hinv').
+        exists (Ok (RHandle (s_next_id s))), s'. split; [exact Hrun|]. intros _.
+        eexists. split; [reflexivity|].
+        replace (negb (mode_eqb md ReadOnly)) with true by (destruct md; try discriminate G9; reflexivity).
+        replace (open_model md None) with (@nil N, 0) by (destruct md; reflexivity).
+        exact Hinv'.
   Qed.
 
   (* 4. C01 for life-cycle histories: for every finite sequence of opens (as covered), reads,
@@ -1621,7 +1877,7 @@ Section Reopen.
 
   (* C01, re-open: a member h that has been written to (dirty) is closed; its slot is the one
      the lookup of its name finds in the directory of handle d.  Then, in the state after the
-     close, an open of that name through d in a keep mode is COVERED (open_covered), and the
+     close, an open of that name through d in a keep mode is COVERED (open_keep), and the
      contents it finds on the medium are exactly the bytes the byte-array model of h held when
      it was closed.  (By C02_flush_then_lookup: the entry found again carries the flushed size
      and first cluster; the chain and its bytes are untouched by the flush.) *)
@@ -1643,7 +1899,7 @@ Section Reopen.
     PrHandles.no_file (s_next_id s) s ->
     exists s1, run_op (CloseFile h) s = (Ok RUnit, s1) /\ s_next_id s1 = s_next_id s /\
       lc_inv fsz vid s1 (remove_member h m) /\
-      open_covered fsz vid s1 (remove_member h m) d name md (Some bytes).
+      open_keep fsz vid s1 (remove_member h m) d name md (Some bytes).
   Proof.
     intros Hinv Hmem Hres Hdirty e Hdres Hdvol Hsfn Hdot Hbl Hfind Hdh Hinfobl Hnotdir Hro Hmd
            Huniq Hlim Hfresh.
@@ -1660,7 +1916,7 @@ Section Reopen.
     destruct (lc_rep_slot fsz s vi0 v0 m rs LR _ (nth_error_In _ _ Hr0)) as [Hslot Hapart].
     cbn [fst snd] in Hslot, Hapart.
     destruct (C01_close_removes_rep fsz s vi0 v0 m rs i0 h w (bytes, off) fi f ch FR Hi0 Hr0 Hslot Hinfo
-                Hapart Hndf) as (sF & s1 & Hrun & Hflush & Heff & Es1 & FR').
+                (slot_apart_intro _ _ _ Hapart) Hndf) as (sF & s1 & Hrun & Hflush & Heff & Es1 & FR').
     rewrite Hrunc in Hrun. injection Hrun as ->.
     pose proof Heff as ((M1 & M2 & M3 & M4 & M6 & _) & HnfF & HcF & HwfF & Hfr).
     pose proof Hvolctx as (Hl & ((Hnf & Hc & Hvi & _) & L & _) & Hfit & Hspc & Hwf & Hfindv).
@@ -1805,7 +2061,7 @@ Proof.
               Hdres Hdvol Hsfn Hdot Hbl Hfind Hdh Hinfobl Hnotdir Hro Hmd Huniq Hlim Hfresh)
     as (s1 & Hclose & Hnext & Hinv1 & Hcov).
   destruct (C01_lifecycle_step fsz vid (LOpen d name md (s_next_id s1) (Some bytes)) s1 (remove_member h m) Hinv1
-              (conj eq_refl Hcov)) as (x & s2 & Hrun & Hstep).
+              (conj eq_refl (or_introl Hcov))) as (x & s2 & Hrun & Hstep).
   cbn [lcop] in Hrun.
   destruct Hcov as (di' & dd' & vi' & v' & sfn' & bl' & t' & ch' & G1 & G2 & G3 & G4 & G5 & G6 & G7 & G8 & G9 &
                     G10 & G11 & G12 & G13 & G14 & G15 & G16 & G17).
@@ -1886,3 +2142,121 @@ Proof.
   exact (proj2 (C01_lifecycle_history_closed 1 0 exl_ops exm_state exm_members exl_inv Hwf
                   ltac:(vm_compute; reflexivity))).
 Qed.
+
+(* ... and with an open: the same volume with a handle 5 on the root directory.  File 7 is
+   written and both files are closed (the close of 7 writes its directory slot: block 22,
+   slot 0); then the name "A" is opened again ReadOnly through handle 5 - the call is covered
+   (open_keep), returns handle 9, and handle 9 reads what handle 7 had written. *)
+Definition exo_state : st := set_s_dirs exm_state [mk_dirinfo 5 0 CL_ROOT].
+Definition exo_pre : list lop := [LOp 7 (AWrite [1; 2]); LClose 8; LClose 7].
+Definition exo_s3 : st := snd (lrun exo_pre exo_state).
+Definition exo_bytes : list N := firstn 1500 (file_bytes (s_disk exo_s3) exd_vol [2; 3]).
+Definition exo_post : list lop :=
+  [LOpen 5 [65] ReadOnly 9 (Some exo_bytes); LOp 9 (ASeekStart 698); LOp 9 (ARead 6); LOp 9 ALen; LClose 9].
+
+Lemma exo_inv : lc_inv 1 0 exo_state exm_members.
+Proof.
+  destruct exl_inv as (vi & v & rs & LR & Ev). exists vi, v, rs. split; [|exact Ev].
+  apply (lc_rep_same 1 exm_state exo_state vi v exm_members rs LR); try reflexivity.
+  - intros n [].
+  - intros i E. discriminate E.
+Qed.
+
+Lemma exo_root_home j c : In j [22; 23] -> 2 <= c -> ~ In j (cluster_blocks exd_vol c).
+Proof.
+  intros Hj Hc Hin. destruct (In_cluster_blocks _ _ _ Hin) as (k & _ & Ek).
+  unfold cluster_first_block, exd_vol in Ek. cbn [v_lba v_first_data v_spc] in Ek.
+  remember ((c - 2) * 2) as X. destruct Hj as [<-|[<-|[]]]; lia.
+Qed.
+
+Lemma exo_open_covered : open_keep 1 0 exo_s3 [] 5 [65] ReadOnly (Some exo_bytes).
+Proof.
+  exists 0%nat, (mk_dirinfo 5 0 CL_ROOT), 0%nat, exd_vol, exd_name, [22; 23],
+         (22, 0, slot (disk_get (s_disk exo_s3) 22) 0), [2; 3].
+  split; [split; [vm_compute; reflexivity|split; [vm_compute; reflexivity|split; [vm_compute; reflexivity|
+          split; vm_compute; reflexivity]]]|].
+  split; [reflexivity|]. split; [vm_compute; reflexivity|]. split; [vm_compute; reflexivity|].
+  split; [vm_compute; reflexivity|]. split; [vm_compute; reflexivity|]. split; [vm_compute; reflexivity|].
+  cbv zeta.
+  split; [vm_compute; reflexivity|]. split; [left; reflexivity|].
+  split; [left; split; [vm_compute; discriminate|exists 5%nat; vm_compute; reflexivity]|].
+  split; [vm_compute; discriminate|]. split; [vm_compute; reflexivity|].
+  split; [intros h2 fi2 f2 fu ch2 []|]. split; [intros h2 fi2 f2 c0 fu dch []|].
+  split.
+  { split.
+    - intros j Hj. apply exd_not_fat. destruct Hj as [<-|[<-|[]]]; vm_compute; discriminate.
+    - left. intros j c. apply exo_root_home. }
+  split; [intros f Hf; vm_compute in Hf; destruct Hf|].
+  vm_compute. reflexivity.
+Qed.
+
+Example lifecycle_open_example :
+  lc_inv 1 0 exo_state exm_members /\
+  (* the history, computed on both sides *)
+  fst (lrun (exo_pre ++ exo_post) exo_state) = fst (alrun (exo_pre ++ exo_post) exm_members) /\
+  fst (lrun (exo_pre ++ exo_post) exo_state) =
+    [Ok RUnit; Ok RUnit; Ok RUnit; Ok (RHandle 9); Ok RUnit; Ok (RBytes [0; 0; 1; 2; 0; 0]); Ok (RNum 1500);
+     Ok RUnit] /\
+  (* by the theorems: the invariant after the three calls before the open; the open is covered;
+     the results of the calls from the open on agree with the SPEC side, and the invariant holds
+     at the end *)
+  lc_inv 1 0 exo_s3 [] /\ lguards 1 0 exo_post exo_s3 [] /\
+  fst (lrun exo_post exo_s3) = fst (alrun exo_post []) /\
+  lc_inv 1 0 (snd (lrun exo_post exo_s3)) (snd (alrun exo_post [])).
+Proof.
+  assert (Hwf : lwf exo_pre (map m_handle exm_members)) by (cbn; intuition).
+  assert (Hinv3 : lc_inv 1 0 exo_s3 []).
+  { pose proof (C01_lifecycle_history_closed 1 0 exo_pre exo_state exm_members exo_inv Hwf
+                  ltac:(vm_compute; reflexivity)) as (_ & H).
+    assert (E : snd (alrun exo_pre exm_members) = []) by (vm_compute; reflexivity).
+    rewrite E in H. unfold exo_s3. exact H. }
+  assert (Hg : lguards 1 0 exo_post exo_s3 []).
+  { unfold exo_post. split.
+    - split; [vm_compute; reflexivity|left; exact exo_open_covered].
+    - apply lwf_guards. vm_compute. intuition. }
+  split; [exact exo_inv|]. split; [vm_compute; reflexivity|]. split; [vm_compute; reflexivity|].
+  split; [exact Hinv3|]. split; [exact Hg|].
+  exact (C01_lifecycle_history 1 0 exo_post exo_s3 [] Hinv3 Hg ltac:(vm_compute; reflexivity)).
+Qed.
+
+(* ================================================================== what is NOT covered *)
+(* - The SPEC side of C01_lifecycle_history takes, for an OpenFile call, the handle it will return
+     and the contents of the file on the medium as ghost components of the call (LOpen d name md
+     hn ob), and the guard (lguards: open_keep / open_trunc / open_create, evaluated on the
+     concrete state at that moment) ties them to the medium.  There is no SPEC-side "medium" map
+     from directory slots / paths to the contents of CLOSED files that is carried through the
+     history.  C01_reopen_covered shows that the guard of a re-open holds, with the bytes the
+     model held, in the state directly after the close; that it still holds after further
+     calls on OTHER files in between needs a medium invariant for closed files - the lookup of the
+     name still finds the slot, the decoded entry still has that size and first cluster, the
+     chain still holds those bytes, and the chain stays disjoint from every chain that is
+     written or allocated - preserved by write (needs the block-level frame of mgr_write for
+     directory blocks, PrWrite.wframe, which PrMulti.step_eff does not export), by the flush of
+     another file of the same directory (needs: the on-disk slot of every open file carries the
+     name of its in-memory entry, and no two records sit on one slot) and by the opens.  That
+     invariant is not stated or proved here.
+   - Re-open of a file that was closed CLEAN (never written through the handle): the slot is not
+     rewritten by the close, so the entry found again is whatever the slot holds; that it
+     decodes to the in-memory entry is not part of lc_inv (C01_reopen_covered asks f_dirty = true).
+   - C01_open_creates asks for a free slot in an existing block of the directory; the open that
+     has to grow the directory by a cluster is not covered.
+   - Opens that are refused (PrModes.C07_open_refusals: the state after the lookup, no member
+     added) and Flush / CloseFile on handles outside the set are not part of the histories.
+   - A device fault during flush / close / open is not covered (the device works). *)
+
+(* ================================================================== assumptions *)
+Print Assumptions C01_flush_keeps_rep.
+Print Assumptions C01_flush_keeps.
+Print Assumptions C01_close_removes_rep.
+Print Assumptions C01_close_removes.
+Print Assumptions lc_step.
+Print Assumptions C01_open_adds.
+Print Assumptions C01_open_truncates.
+Print Assumptions C01_open_creates.
+Print Assumptions C01_lifecycle_step.
+Print Assumptions C01_lifecycle_history.
+Print Assumptions C01_lifecycle_history_closed.
+Print Assumptions C01_reopen_covered.
+Print Assumptions C01_close_reopen.
+Print Assumptions lifecycle_example.
+Print Assumptions lifecycle_open_example.
